@@ -3,17 +3,20 @@ import Apko.Model.Cache
 
 `cache-seq \t n \t revs \t builds \t goState \t goOutcomes`
 * `n`      number of non-final chunks per written file
-* `revs`   `r:k0.k1.k2.k3+k0.k1.k2.k3;r:…` — index revision `r` (its content id) ↦ packages in install
-           order, each with the content ids of its signature section (`-` for an unsigned apk), control
-           section, data section and uncompressed tar
-* `builds` `;`-separated `on:hk:gk:K:extra` (online; HEAD announced `hk`, GET served `gk`; killed at
-           marker `K` plus `extra` steps, `K` = `-` for a build that is not killed) or `off`
+* `revs`   `r:pid/k0.k1.k2.k3+pid/k0.k1.k2.k3;r:…` — index revision `r` (its content id) ↦ packages in
+           install order, each with the id of its URL (`pid`) and the content ids of its signature section
+           (`-` for an unsigned apk), control section, data section and uncompressed tar
+* `builds` `;`-separated `on:hk:gk:K:extra[:fr]` (online; HEAD announced `hk`, GET served `gk`; killed at
+           marker `K` plus `extra` steps, `K` = `-` for a build that is not killed; the apk files are those of
+           revision `fr` — default `gk` —: a package whose URL holds other content there than the index lists
+           is fetched, rejected by `verifyExpanded`, and the build fails) or `off`
 * `goState`, `goOutcomes`  what the real code left / answered (canonical tokens), for the oracle
 
 Answer: `impl \t verdict \t class` — impl = the model's `state|outcomes` after the same builds, verdict =
 the property's oracle evaluated on Go's output, class `F19a` iff the model run itself passed through
 a regular incomplete file under a final name (impossible for the repaired builders: `adv_invariant`).
 
+`cache-flight \t want \t results` — oracle only (request coalescing through the real cacheTransport).
 `cache-conc \t expect \t goState \t goOutcomes \t offline \t revs` — oracle only (concurrent recovery builds,
 then one offline build).  `cache-race \t expect \t goState \t goOutcomes \t revs` — oracle only (a build paused
 inside `cachedPackage` while another one populates the cache).  `cache-plant \t kind \t want \t online \t offline` — planted entries: both outcomes must be `want` or `err`.
@@ -22,6 +25,7 @@ namespace Apko.Driver.Cache
 open Apko.Cache
 
 structure Pkg where
+  pid : Nat
   k0 : Option Cid
   k1 : Cid
   k2 : Cid
@@ -30,8 +34,11 @@ structure Pkg where
 abbrev Revs := List (Cid × List Pkg)
 
 def parsePkg (s : String) : Option Pkg :=
-  match s.splitOn "." with
-  | [z, a, b, c] => some ⟨if z == "-" then none else some z.toNat!, a.toNat!, b.toNat!, c.toNat!⟩
+  match s.splitOn "/" with
+  | [pid, ks] =>
+    match ks.splitOn "." with
+    | [z, a, b, c] => some ⟨pid.toNat!, if z == "-" then none else some z.toNat!, a.toNat!, b.toNat!, c.toNat!⟩
+    | _ => none
   | _ => none
 
 def parseRevs (s : String) : Revs :=
@@ -42,6 +49,13 @@ def parseRevs (s : String) : Revs :=
     | _ => none
 
 def pkgsOf (revs : Revs) (r : Cid) : List Pkg := ((revs.find? (·.1 = r)).map (·.2)).getD []
+
+/-- what the repository serves under the URL of `p` when its files are those of revision `fr`: `none` when
+it is the listed apk itself -/
+def servedOf (revs : Revs) (fr : Cid) (p : Pkg) : Option Pkg :=
+  match (pkgsOf revs fr).find? (·.pid = p.pid) with
+  | some q => if q.k1 = p.k1 then none else some q
+  | none => none
 
 structure Sim where
   fs : FS := FS.empty
@@ -105,26 +119,36 @@ def obsComplete (p : Proc) : Bool := p.obs.all fun (_, _, b) => b
 /-- the revision the index segment ended up reading -/
 def revRead (p : Proc) : Option Cid := p.obs.getLast?.map (·.2.1)
 
-/-- package segments of one build, in install order; stops at the first error / at the crash -/
-def runPkgs (n : Nat) (offline : Bool) : List Pkg → FS → Nat → Option (Nat × Nat) → Bool →
+/-- package segments of one build, in install order; stops at the crash.  A package that fails (offline
+miss, rejected download) does not stop the others: `InstallPackages` fetches every package (plain
+`errgroup.Group`, no cancellation) and reports the error at the end. -/
+def runPkgsFrom (n : Nat) (offline : Bool) : List (Pkg × Option Pkg) → FS → Nat → Option (Nat × Nat) → Bool → Bool →
     FS × Nat × String × Bool   -- fs, nextTmp, status ("ok" | "err" | "crash"), all observations complete
-  | [], fs, nt, _, okc => (fs, nt, "ok", okc)
-  | p :: rest, fs, nt, budget, okc =>
+  | [], fs, nt, _, okc, failed => (fs, nt, if failed then "err" else "ok", okc)
+  | (p, served) :: rest, fs, nt, budget, okc, failed =>
     let sg : Option (Name × Cid) := p.k0.map fun k0 => (.tmp (nt + 4), k0)
     let prog := if offline then pkgOffline sg (.tmp nt) p.k1 p.k2 p.k3 n
-      else pkgBuilder sg (.tmp nt) (.tmp (nt + 1)) (.tmp (nt + 2)) (.tmp (nt + 3)) p.k1 p.k2 p.k3 n
+      else match served with
+        | none => pkgBuilder sg (.tmp nt) (.tmp (nt + 1)) (.tmp (nt + 2)) (.tmp (nt + 3)) p.k1 p.k2 p.k3 n
+        | some q =>
+          pkgBuilderRejected sg (.tmp (nt + 3)) p.k1 p.k2 p.k3 (q.k0.map fun k0 => (.tmp (nt + 4), k0))
+            (.tmp nt) (.tmp (nt + 1)) (.tmp (nt + 2)) q.k1 q.k2 q.k3 n
     let nt' := if offline then nt + 1 else nt + 5
     let (fs', pr, budget', stopped) := runSeg fs prog budget
     if stopped then (fs', nt', "crash", okc)
     else match halted pr with
-      | some true => runPkgs n offline rest fs' nt' budget' (okc && obsComplete pr)
-      | _ => (fs', nt', "err", okc)
+      | some true => runPkgsFrom n offline rest fs' nt' budget' (okc && obsComplete pr) failed
+      | _ => runPkgsFrom n offline rest fs' nt' budget' okc true
+
+def runPkgs (n : Nat) (offline : Bool) (pkgs : List (Pkg × Option Pkg)) (fs : FS) (nt : Nat)
+    (budget : Option (Nat × Nat)) (okc : Bool) : FS × Nat × String × Bool :=
+  runPkgsFrom n offline pkgs fs nt budget okc false
 
 def finishBuild (revs : Revs) (sim : Sim) (fs : FS) (nt : Nat) (out : String) : Sim :=
   let sim' := { sim with fs := fs, nextTmp := nt, outcomes := sim.outcomes ++ [out] }
   { sim' with regenSeen := sim.regenSeen || regenVisible revs sim' }
 
-def buildOnline (n : Nat) (revs : Revs) (sim : Sim) (hk gk : Cid) (budget : Option (Nat × Nat)) : Sim :=
+def buildOnline (n : Nat) (revs : Revs) (sim : Sim) (hk gk fr : Cid) (budget : Option (Nat × Nat)) : Sim :=
   let t := Name.tmp sim.nextTmp
   let sim := { sim with idxTemps := sim.idxTemps ++ [t], idxRevs := (sim.idxRevs ++ [hk, gk]).eraseDups }
   let (fs1, pr, budget1, stopped) := runSeg sim.fs (indexOnline t hk gk n) budget
@@ -132,7 +156,8 @@ def buildOnline (n : Nat) (revs : Revs) (sim : Sim) (hk gk : Cid) (budget : Opti
   if stopped then finishBuild revs sim fs1 nt "crash"
   else match halted pr, revRead pr with
     | some true, some r =>
-      let (fs2, nt2, st, okc) := runPkgs n false (pkgsOf revs r) fs1 nt budget1 (obsComplete pr)
+      let pkgs := (pkgsOf revs r).map fun p => (p, servedOf revs fr p)
+      let (fs2, nt2, st, okc) := runPkgs n false pkgs fs1 nt budget1 (obsComplete pr)
       finishBuild revs sim fs2 nt2 (if st == "ok" then (if okc then s!"ok:img{r}" else "ok:img?") else st)
     | _, _ => finishBuild revs sim fs1 nt "err"
 
@@ -141,14 +166,16 @@ def buildOffline (n : Nat) (revs : Revs) (sim : Sim) : Sim :=
   let (fs1, pr, _, _) := runSeg sim.fs (indexOffline cands) none
   match halted pr, revRead pr with
   | some true, some r =>
-    let (fs2, nt2, st, okc) := runPkgs n true (pkgsOf revs r) fs1 sim.nextTmp none (obsComplete pr)
+    let (fs2, nt2, st, okc) := runPkgs n true ((pkgsOf revs r).map fun p => (p, none)) fs1 sim.nextTmp none (obsComplete pr)
     finishBuild revs sim fs2 nt2 (if st == "ok" then (if okc then s!"ok:img{r}" else "ok:img?") else st)
   | _, _ => finishBuild revs sim fs1 sim.nextTmp "err"
 
 def runBuild (n : Nat) (revs : Revs) (sim : Sim) (b : String) : Sim :=
   match b.splitOn ":" with
   | ["on", hk, gk, k, extra] =>
-    buildOnline n revs sim hk.toNat! gk.toNat! (if k == "-" then none else some (k.toNat!, extra.toNat!))
+    buildOnline n revs sim hk.toNat! gk.toNat! gk.toNat! (if k == "-" then none else some (k.toNat!, extra.toNat!))
+  | ["on", hk, gk, k, extra, fr] =>
+    buildOnline n revs sim hk.toNat! gk.toNat! fr.toNat! (if k == "-" then none else some (k.toNat!, extra.toNat!))
   | ["off"] => buildOffline n revs sim
   | _ => sim
 
@@ -157,14 +184,14 @@ def runBuild (n : Nat) (revs : Revs) (sim : Sim) (b : String) : Sim :=
 def tokenOk (t : String) : Bool :=
   if t.startsWith "A" then
     match (t.drop 1).toString.splitOn "=" with
-    | [k, d] => d == s!"LF{k}" || d == s!"RF{k}" || d == "LD"
+    | [k, d] => d == s!"LF{k}" || d == s!"RF{k}"   -- in particular not `LD`: a dangling link (`adv_present_resolves`)
     | _ => false
   else true
 
 def stateVerdict (goState : String) : Option String :=
   let toks := if goState.isEmpty then [] else goState.splitOn ","
   match toks.find? (fun t => !tokenOk t) with
-  | some t => some s!"advertised-name-holds-other-content:{t}"
+  | some t => some (if t.endsWith "=LD" then s!"advertised-entry-dangles:{t}" else s!"advertised-name-holds-other-content:{t}")
   | none => none
 
 /-- `hit_has_signature` on the real directory: where the control and the data entry of a signed package
@@ -182,15 +209,21 @@ def depVerdict (revs : Revs) (goState : String) : Option String :=
 announced, when the repository changed between HEAD and GET); killed → `crash` (or that image when the
 marker lies beyond the build); offline → an error or the image of the revision the most recent online
 build asked for (never an older revision, never anything else) -/
-def outcomesVerdict (builds : List String) (outs : List String) : Option String :=
+def outcomesVerdict (revs : Revs) (builds : List String) (outs : List String) : Option String :=
   let rec go (bs : List String) (os : List String) (last : List String) (i : Nat) : Option String :=
     match bs, os with
     | [], [] => none
     | b :: bs', o :: os' =>
       match b.splitOn ":" with
-      | ["on", hk, gk, k, _] =>
+      | "on" :: hk :: gk :: k :: _ :: frs =>
+        -- the repository's files are those of revision `fr` (default: the GET revision): where a listed
+        -- package's URL serves another apk (a stale index — also the cached one HEAD announced — of a
+        -- repository that rebuilt a package) the cache-less build fails (verifyExpanded); with the cache the
+        -- build fails too, or — the listed apk being cached — produces the image of the listed revision
         let want := s!"ok:img{gk}"
-        if o == want || o == s!"ok:img{hk}" || (k != "-" && o == "crash") then
+        let fr := (frs.head?.getD gk).toNat!
+        let mismatch := (pkgsOf revs gk.toNat! ++ pkgsOf revs hk.toNat!).any fun p => (servedOf revs fr p).isSome
+        if o == want || o == s!"ok:img{hk}" || (k != "-" && o == "crash") || (mismatch && o == "err") then
           go bs' os' [want, s!"ok:img{hk}"] (i + 1)
         else some s!"build{i}:online:{o}:want:{want}"
       | _ =>
@@ -207,7 +240,7 @@ def handle (args : List String) : Option String :=
     let sim := bs.foldl (runBuild n.toNat! revs) {}
     let impl := stateString revs sim ++ "|" ++ ",".intercalate sim.outcomes
     let outs := if goOutcomes.isEmpty then [] else goOutcomes.splitOn ","
-    let verdict := match stateVerdict goState, depVerdict revs goState, outcomesVerdict bs outs with
+    let verdict := match stateVerdict goState, depVerdict revs goState, outcomesVerdict revs bs outs with
       | some w, _, _ => "fail:" ++ w
       | none, some w, _ => "fail:" ++ w
       | none, none, some w => "fail:" ++ w
@@ -240,6 +273,15 @@ def handle (args : List String) : Option String :=
     -- `.dat.tar` is used as it is, and the size of a truncated `.dat.tar.gz` goes into the installed db
     some ("-\t" ++ verdict ++ "\t" ++
       (if kind == "empty-tar" || kind == "cut-tar" || kind == "trunc-dat" then "F19b" else "unlisted"))
+  | ["cache-flight", want, results] =>
+    -- N coalesced requests for one resource, then a warm and an offline request: the server is healthy, so
+    -- every caller must get exactly the served bytes (`coalescing_transparent`: what the shared call
+    -- returns is a value — not a handle with a position that the callers would share)
+    let rs := if results.isEmpty then [] else results.splitOn ","
+    let verdict := match rs.find? (· != want) with
+      | some o => s!"fail:coalesced-request-got:{o}:served:{want}:all:{results}"
+      | none => "pass"
+    some ("-\t" ++ verdict ++ "\tunlisted")
   | ["cache-cold", cacheless, cold] =>
     -- the most basic instance: an empty cache directory must not change the result
     some ("-\t" ++ (if cacheless == cold then "pass" else s!"fail:cold-cache-build-differs:{cold}:cache-less:{cacheless}") ++ "\tunlisted")
